@@ -1,6 +1,8 @@
 package main
 
 import (
+	"bytes"
+	"encoding/binary"
 	"fmt"
 	"math/rand"
 	"net"
@@ -197,6 +199,12 @@ func runScenario(sc Scenario, dir string) ([]verif.Event, *RunResult) {
 	}
 	if sc.RdyZero {
 		r.rdyZeroStep()
+	}
+	if sc.MixedTmo {
+		r.mixedTimeoutStep()
+	}
+	if sc.PauseBacklog {
+		r.pauseBacklogStep()
 	}
 	// ---- drain
 	if sc.Lonely {
@@ -787,4 +795,85 @@ func (r *Run) starveStep() {
 			}
 		}
 	}
+}
+
+// mixedTimeoutStep: two consumers of ONE channel negotiated different msg_timeouts. The one with the long timeout
+// holds a message; later the one with the short timeout gets a message and holds it too. The second message's
+// deadline is EARLIER than the first one's although it was delivered later: it must still time out on time (C04:
+// the timing ledger measures how long after its deadline the scan picked it up).
+func (r *Run) mixedTimeoutStep() {
+	t := r.sc.Topics[0]
+	r.httpAdmin("/channel/create?topic=" + t + "&channel=mix")
+	hold := func(name string, tmoMs int, key string) *Conn {
+		cn, err := dial(r.nd.TCP, r.newConnName(name))
+		if err != nil {
+			r.inconclusive("mixed dial: %v", err)
+			return nil
+		}
+		if _, err := cn.identify(map[string]interface{}{"msg_timeout": tmoMs}); err != nil {
+			r.inconclusive("mixed identify: %v", err)
+			return nil
+		}
+		if err := cn.sub(t, "mix"); err != nil {
+			r.inconclusive("mixed sub: %v", err)
+			return nil
+		}
+		cn.cmd("RDY", "", "1")
+		body := []byte(key + "|mixed")
+		rec := r.record(key, t, body, 0, "HTTP")
+		hlib.Emit("HPub", "key", key, "via", "HTTP", "t", t, "defer", 0, "now", time.Now().UnixNano())
+		if st, _, err := r.nd.post("/pub?topic="+t, body); err == nil && st == 200 {
+			r.markAcked([]*pubRec{rec})
+		}
+		deadline := time.Now().Add(10 * time.Second)
+		for time.Now().Before(deadline) {
+			if f, ok := cn.next(50 * time.Millisecond); ok && f.Type == 2 {
+				return cn // held, never answered
+			}
+		}
+		r.inconclusive("mixed: the message did not reach the consumer")
+		return cn
+	}
+	long := hold("mxl", 6000, "p95-00000")
+	if long == nil {
+		return
+	}
+	defer long.close()
+	time.Sleep(350 * time.Millisecond) // several scan ticks see the long deadline at the head of the heap
+	short := hold("mxs", 1000, "p95-00001")
+	if short == nil {
+		return
+	}
+	defer short.close()
+	time.Sleep(2500 * time.Millisecond) // the short one's deadline (1 s) passes well within this
+}
+
+// pauseBacklogStep: a topic is paused while its pump is busy with a backlog. Once POST /topic/pause has been
+// answered nothing more may be handed to the channels (C03: the trace spec rejects a TTake after TPauseEnd).
+func (r *Run) pauseBacklogStep() {
+	t := r.sc.Topics[0]
+	for round := 0; round < 6; round++ {
+		r.httpAdmin("/topic/pause?topic=" + t)
+		// the backlog builds up in the topic's queue while it is paused
+		var recs []*pubRec
+		var buf bytes.Buffer
+		n := 60
+		binary.Write(&buf, binary.BigEndian, int32(n))
+		for j := 0; j < n; j++ {
+			key := fmt.Sprintf("p94-%02d%03d", round, j)
+			body := []byte(key + "|backlog")
+			recs = append(recs, r.record(key, t, body, 0, "HMPUB"))
+			hlib.Emit("HPub", "key", key, "via", "HMPUB", "t", t, "defer", 0, "now", time.Now().UnixNano())
+			buf.Write(lenPrefixed(body))
+		}
+		if st, _, err := r.nd.post("/mpub?topic="+t+"&binary=true", buf.Bytes()); err == nil && st == 200 {
+			r.markAcked(recs)
+		}
+		// unpause: the pump starts fanning the backlog out; pause again right away, in the middle of it
+		r.httpAdmin("/topic/unpause?topic=" + t)
+		time.Sleep(time.Duration(r.rng.Intn(400)) * time.Microsecond)
+		r.httpAdmin("/topic/pause?topic=" + t)
+		time.Sleep(30 * time.Millisecond) // anything handed over now was handed over after the acknowledged pause
+	}
+	r.httpAdmin("/topic/unpause?topic=" + t)
 }
